@@ -14,7 +14,7 @@ TECHNIQUE = "seeded provider-API call-sequence search against a reference tree w
 RULE = ("each case = a provider (MockProvider id-style/path-style x case-sensitive/insensitive, or FileSystemProvider on a real scratch directory) and 3-20 API calls drawn from create, mkdir, upload, rename, "
         "delete, info_path, info_oid, exists_path, exists_oid, listdir, download over a collision-prone name alphabet (a, b, A, 'ü x.txt', nested two levels; on case-insensitive providers objects are "
         "addressed in mixed case) with payloads of the size classes 0, <1 KiB, 1-2 KiB, >2 KiB, 100 KiB. Reference: a dict tree; per call the documented outcome - success value, or CloudFileExistsError "
-        "(target exists / upload onto a folder / delete of a non-empty folder / rename onto a file or non-empty folder), CloudFileNotFoundError (missing source or parent), silent delete of a missing id; "
+        "(target exists / upload onto a folder / delete of a non-empty folder / rename onto a file or non-empty folder; a folder renamed onto an existing EMPTY folder replaces it - on the id-style mock the replaced folder's id must stop existing and be reported with exists=False), CloudFileNotFoundError (missing source or parent), silent delete of a missing id; "
         "reads agree with the tree and with each other; ids are stable across rename (id-style) or equal the new normalised path for the renamed object and everything below it (path-style); the hash "
         "reported for a file equals hash_data() of the same bytes and differs between different contents, in every size class; after every successful mutation the drained event stream contains an event "
         "with the object's id and the right existence (for the filesystem provider the pool of real watchdog/inotify threads is replaced by a SimObserverPool: the harness delivers, once or twice, the watchdog events inotify reports for each mutation, so the provider's own conversion, cursor and events() code is what is judged - not inotify itself); connecting with an identity "
@@ -210,6 +210,7 @@ def _run(case):
                     oid = e[3] if e else ("/no/such" if path_ids else "no-such-id")
                     dk = ref.kind(dst)
                     same = e is not None and ref.k(src) == ref.k(dst)
+                    replaced = None
                     if e is not None and not same and (ref.k(dst) + "/").startswith(ref.k(src) + "/"):
                         outcomes.append("skip")
                         continue                    # into its own subtree: not a legal call
@@ -224,8 +225,10 @@ def _run(case):
                     elif not same and dk == "d" and (ref.children(dst) or e[1] == "f"):
                         expect_exc = (cex.CloudFileExistsError,)
                     elif not same and dk == "d":
-                        outcomes.append("skip")
-                        continue                    # folder onto an existing empty folder: replaces it; not modelled here
+                        if is_fs or path_ids:
+                            outcomes.append("skip")
+                            continue                # folder onto an existing empty folder: replaces it; modelled for the id-style mock only
+                        replaced = ref.get(dst)[3]  # (there the replaced folder has an id of its own, whose disappearance must be reported)
                     new_oid = prov.rename(oid, dst)
                     if expect_exc:
                         return bad("succeeded, documented outcome is %s" % "/".join(c.__name__ for c in expect_exc))
@@ -251,6 +254,10 @@ def _run(case):
                     ev = _drain(prov, is_fs)
                     if ev is not None and not same and not any(x.oid == new_oid and x.exists is not False for x in ev):
                         return bad("no event with the renamed object's id %r after rename (got %s)" % (new_oid, [(x.oid, x.exists) for x in ev][:5]))
+                    if ev is not None and replaced is not None and replaced != new_oid and not any(x.oid == replaced and x.exists is False for x in ev):
+                        return bad("rename onto the empty folder %r replaced it, but no event with its id %r and exists=False followed (got %s)" % (dst, replaced, [(x.oid, x.exists) for x in ev][:5]))
+                    if replaced is not None and replaced != new_oid and prov.exists_oid(replaced):
+                        return bad("rename onto the empty folder %r: the replaced folder's id %r still exists" % (dst, replaced))
                 elif k == "delete":
                     e = ref.get(op[1])
                     oid = e[3] if e else ("/no/such" if path_ids else "no-such-id")
